@@ -83,7 +83,7 @@ func (prop) Describe() core.Description {
 		RealComponents: []string{"go-geom root package (constructors, Push, accessors)", "encoding/wkb", "encoding/ewkb", "encoding/wkbcommon", "encoding/wkbhex", "encoding/ewkbhex", "wkb/ewkb database/sql Scanner/Valuer wrappers", "stdlib io, encoding/binary, bytes, encoding/hex"},
 		StubComponents: []string{"io.Writer (simio.Writer: failure offset, short/whole-call, sticky/transient; optionally also io.ByteWriter or io.StringWriter)", "io.Reader (simio.Reader: chunking, stalls, data+EOF, error at offset, truncation; optionally also io.ByteReader)", "database/sql driver (Scan/Value are called directly)"},
 		FaultKinds:     []string{"write-fail-sticky-short", "write-fail-sticky-whole", "write-fail-transient", "read-split", "read-stall", "read-data+eof", "read-error", "read-error-with-data", "read-truncate"},
-		Probes:         []string{"probe:error-inside-count", "probe:split-inside-type-word", "probe:stall-before-byte-order", "probe:srid>=2^31", "probe:xdr+zm+empty-member", "probe:nested-collection", "probe:mixed-layout-collection", "probe:empty-point", "probe:rejected-unsupported-layout", "probe:rejected-empty-point", "probe:concatenated>=2", "probe:enum-capped", "probe:member-srid-round-trip", "probe:result-rechecked-after-later-calls", "probe:error-kind-temporary", "probe:error-kind-timeout", "probe:error-kind-unexpected-eof", "probe:error-kind-closed-pipe", "probe:error-kind-no-progress", "probe:wkb-of-geometry-with-srid", "probe:reader-with-ReadByte", "probe:writer-with-byte", "probe:writer-with-string"},
+		Probes:         []string{"probe:error-inside-count", "probe:split-inside-type-word", "probe:stall-before-byte-order", "probe:srid>=2^31", "probe:xdr+zm+empty-member", "probe:nested-collection", "probe:mixed-layout-collection", "probe:empty-point", "probe:rejected-unsupported-layout", "probe:rejected-empty-point", "probe:concatenated>=2", "probe:enum-capped", "probe:member-srid-round-trip", "probe:result-rechecked-after-later-calls", "probe:error-kind-temporary", "probe:error-kind-timeout", "probe:error-kind-unexpected-eof", "probe:error-kind-closed-pipe", "probe:error-kind-no-progress", "probe:wrapper-scanned-twice", "probe:wkb-of-geometry-with-srid", "probe:reader-with-ReadByte", "probe:writer-with-byte", "probe:writer-with-string"},
 	}
 }
 
@@ -534,6 +534,9 @@ func (prop) Execute(scAny any, phase string, log *core.Log) core.Result {
 		ok = readStream(&res, log, lib, encs, stream, s.Read, &faultFired, "plan")
 	}
 	if ok {
+		ok = readBytesBuffer(&res, lib, encs, stream)
+	}
+	if ok {
 		for _, e := range encs {
 			if !wrappers(&res, log, lib, s, e) {
 				ok = false
@@ -662,6 +665,22 @@ func oneGeomWrite(res *core.Result, log *core.Log, lib wkbadapt.Lib, s *Scenario
 		res.Fail("bytes-differ", "bytes-differ:hex", "hex Encode(%s) of %s = %q, %v; reference %x", s.Codec, e.m, hs, herr, e.ref)
 		return false
 	}
+	// the same encoding into a real *bytes.Buffer that was used before and
+	// Reset (its spare capacity holds stale bytes): a codec may take another
+	// path for such a destination
+	var bb bytes.Buffer
+	bb.Write(bytes.Repeat([]byte{0xee}, len(e.ref)+32))
+	bb.Reset()
+	if werr := lib.Write(&bb, e.g); werr != nil || !bytes.Equal(bb.Bytes(), e.ref) {
+		res.Fail("bytes-differ", "bytes-differ:write-into-reused-bytes.Buffer", "Write(%s) of %s into a reused bytes.Buffer gave %x, %v; reference %x", s.Codec, e.m, bb.Bytes(), werr, e.ref)
+		return false
+	}
+	// a hex string once returned stays what it is
+	hs2, _ := lib.HexEncode(e.g)
+	if !strings.EqualFold(hs, hex.EncodeToString(e.ref)) || !strings.EqualFold(hs2, hs) {
+		res.Fail("bytes-differ", "bytes-differ:hex-after-next-encode", "the hex string of %s changed after the next Encode: %q then %q; reference %x", e.m, hs, hs2, e.ref)
+		return false
+	}
 	if lib.HasSQL() {
 		ndr := s.Codec
 		ndr.BE = false
@@ -690,6 +709,28 @@ func oneGeomWrite(res *core.Result, log *core.Log, lib wkbadapt.Lib, s *Scenario
 		if !bytes.Equal(vb2, refNDR) {
 			res.Fail("bytes-differ", "sql-values-share-storage", "overwriting the first Value() result of %s changed the second to %x", e.m, vb2)
 			return false
+		}
+		// one wrapper, asked again after the geometry it holds has changed
+		// (another SRID for EWKB, which the bytes carry)
+		if s.Codec.EWKB {
+			if vr := lib.Valuer(e.g); vr != nil {
+				v1, verr1 := vr.Value()
+				m2 := e.m.Clone()
+				m2.S = (e.m.S + 1) % (1 << 32)
+				if _, serr := geom.SetSRID(e.g, m2.S); serr == nil {
+					ref2, _, rerr := refwkb.Encode(ndr, m2)
+					v2, verr2 := vr.Value()
+					b1, _ := v1.([]byte)
+					b2, _ := v2.([]byte)
+					if rerr == nil && (verr1 != nil || verr2 != nil || !bytes.Equal(b1, refNDR) || !bytes.Equal(b2, ref2)) {
+						res.Fail("bytes-differ", "bytes-differ:sql-value-after-geometry-changed", "one wrapper of %s: Value() = %x (%v), then after SetSRID(%d) Value() = %x (%v); references %x and %x", e.m, b1, verr1, m2.S, b2, verr2, refNDR, ref2)
+						return false
+					}
+					if _, serr := geom.SetSRID(e.g, e.m.S); serr != nil {
+						panic(serr)
+					}
+				}
+			}
 		}
 	}
 	// writer failures
@@ -752,6 +793,15 @@ func oneGeomWrite(res *core.Result, log *core.Log, lib wkbadapt.Lib, s *Scenario
 		if !try(s.WriteFail.At, s.WriteFail.Short, s.WriteFail.Transient) {
 			return false
 		}
+	}
+	// whatever the writers did, the geometry is what it was and encodes as before
+	if obs, oerr := mgeom.Observe(e.g); oerr != nil || mgeom.Diff(obs, e.m) != "" {
+		res.Fail("argument-changed", "argument-changed:write", "after the writes (some into failing writers) the geometry is %s (%v), it was %s", obs, oerr, e.m)
+		return false
+	}
+	if mb3, merr3 := lib.Marshal(e.g); merr3 != nil || !bytes.Equal(mb3, e.ref) {
+		res.Fail("bytes-differ", "bytes-differ:marshal-after-failed-writes", "Marshal(%s) of %s after writes into failing writers = %x, %v; reference %x", s.Codec, e.m, mb3, merr3, e.ref)
+		return false
 	}
 	return true
 }
@@ -913,6 +963,38 @@ func readStream(res *core.Result, log *core.Log, lib wkbadapt.Lib, encs []*enc, 
 	return true
 }
 
+// readBytesBuffer reads the same concatenated stream from a real *bytes.Buffer
+// (which offers Len, Next, ReadByte, ... beyond io.Reader): every Read must
+// leave the buffer exactly at the end of its geometry.
+func readBytesBuffer(res *core.Result, lib wkbadapt.Lib, encs []*enc, stream []byte) bool {
+	bb := bytes.NewBuffer(append([]byte(nil), stream...))
+	cum := 0
+	for i, e := range encs {
+		cum += len(e.ref)
+		var g geom.T
+		var err error
+		if p := core.Guard(func() { g, err = lib.Read(bb) }); p != "" {
+			res.Fail("panic", "panic:read:"+core.PanicSite(p), "Read from a bytes.Buffer panicked on geometry %d: %s", i, p)
+			return false
+		}
+		if err != nil || g == nil {
+			res.Fail("read-failed", "read-failed:bytes.Buffer", "Read of geometry %d from a bytes.Buffer failed: %v; model %s", i, err, e.m)
+			return false
+		}
+		obs, oerr := mgeom.Observe(g)
+		if oerr != nil || mgeom.Diff(obs, e.expect) != "" {
+			res.Fail("decoded-differs", "decoded-differs:bytes.Buffer", "Read of geometry %d from a bytes.Buffer observed %s (%v), expected %s", i, obs, oerr, e.expect)
+			return false
+		}
+		if got := len(stream) - bb.Len(); got != cum {
+			res.Fail("consumed-wrong", "consumed-wrong:bytes.Buffer", "after Read of geometry %d the bytes.Buffer stands at %d, the geometry ends at %d", i, got, cum)
+			return false
+		}
+		e.hold(g)
+	}
+	return true
+}
+
 func callsString(cs []simio.Call) string {
 	var b strings.Builder
 	for i, c := range cs {
@@ -1063,6 +1145,30 @@ func wrappers(res *core.Result, log *core.Log, lib wkbadapt.Lib, s *Scenario, e 
 		return true
 	}
 	// The SQL scanners take the NDR or XDR bytes alike.
+	// a wrapper that already held another row (an empty geometry of its kind,
+	// with another SRID where the codec has one)
+	prime := &mgeom.Geom{T: e.m.T, L: 1}
+	if e.m.T == mgeom.Pt {
+		prime = &mgeom.Geom{T: mgeom.Pt, L: 1, P: [][][]mgeom.Coord{{{{1, 2}}}}}
+	}
+	if s.Codec.EWKB {
+		prime.S = 7777
+	}
+	if pref, _, perr := refwkb.Encode(s.Codec, prime.Norm()); perr == nil {
+		if sc := lib.NewScanner(e.m.T); sc != nil {
+			var g0 geom.T
+			if _, err0 := sc.Scan(pref); err0 == nil {
+				if p := core.Guard(func() { g0, err = sc.Scan(append([]byte{}, e.ref...)) }); p != "" {
+					res.Fail("panic", "panic:scan:"+core.PanicSite(p), "the second Scan into one wrapper panicked: %s", p)
+					return false
+				}
+				res.Count("probe:wrapper-scanned-twice", 1)
+				if !check("second Scan into one "+e.m.T+" wrapper", g0, err) {
+					return false
+				}
+			}
+		}
+	}
 	sbuf := append([]byte{}, e.ref...)
 	if p := core.Guard(func() { g, err = lib.Scan(e.m.T, sbuf) }); p != "" {
 		res.Fail("panic", "panic:scan:"+core.PanicSite(p), "Scan panicked: %s", p)
